@@ -33,7 +33,7 @@ ASSUMPTIONS = [
 @st.composite
 def value_case(draw):
     o = gens.opts(dynamic=False, unions=False, max_fields=12, max_depth=1, signed_flags=False, zero_len=True, bits_weight=4,
-                  arrays=draw(st.booleans()), anon_weight=draw(st.sampled_from([1, 4])))
+                  arrays=draw(st.booleans()), anon_weight=draw(st.sampled_from([1, 4])), anon_nested=draw(st.booleans()))
     case = draw(gens.input_case(o, tail=False))
     root = [d for d in case["defs"] if d["n"] == "Root"][0]["t"]
     n = len(root["fields"])
@@ -61,6 +61,54 @@ def count_cases():
             data = bytes(((i * 7 + order + 1) & 0xFF) or 1 for i in range(size))
             yield {"defs": defs, "root": "Root", "cfg": {"endian": "<", "align": False, "ptr": "uint32", "compiled": bool(n % 2)}, "data": data.hex(),
                    "which": ["first", "middle", "last"][order], "npos": n // 2, "kwmask": (1 << n) - 1 if order else 0x555, "assign": n + order, "alt": "0102030405060708"}
+
+
+def wide_cases():
+    """Field counts around the points where CPython changes how it builds tuples and indexes names (30..32, 255..257),
+    all members hashable."""
+    for n in (13, 30, 31, 32, 33, 64, 129, 255, 256, 257, 300):
+        fields = [{"name": f"w{i}", "t": S("uint8" if i % 3 else "uint16"), "bits": None} for i in range(n)]
+        defs = [{"k": "structdef", "n": "Root", "t": {"k": "st", "kind": "struct", "name": None, "fields": fields}}]
+        for compiled in (False, True):
+            yield {"wide": True, "defs": defs, "root": "Root", "n": n, "cfg": {"endian": "<", "align": False, "ptr": "uint32", "compiled": compiled}}
+
+
+def _run_wide(case, ctx):
+    cs = common.load(case)
+    T = cs.Root
+    n = case["n"]
+    names = [f"w{i}" for i in range(n)]
+    vals = [(i * 7 + 3) % 251 + 1 for i in range(n)]
+    a = lib(lambda: T(**dict(zip(names, vals))))
+    b = lib(lambda: T(*vals))
+    if isinstance(a, Err) or isinstance(b, Err):
+        raise Violation("construction-raised", f"{n} fields: keyword {a!r} / positional {b!r}", getattr(a, "where", ""))
+    if lib(lambda: a == b) is not True or lib(hash, a) != lib(hash, b) or lib(hash, a) != hash(tuple(vals)):
+        raise Violation("equal-instances-hash-differently", f"{n} fields: keyword- and positionally built instances: == {lib(lambda: a == b)!r}, hashes {lib(hash, a)!r} / {lib(hash, b)!r} / tuple {hash(tuple(vals))}")
+    for j in sorted({0, 1, n // 2, 29, 30, 31, 32, 254, 255, 256, n - 2, n - 1} & set(range(n))):
+        # differing only in field j; truthy only in field j
+        v2 = list(vals)
+        v2[j] ^= 1
+        c = T(*v2)
+        if lib(lambda: a == c) is not False or lib(lambda: a != c) is not True:
+            raise Violation("unequal-instances-equal", f"{n} fields: instances differing only in field #{j} compare equal")
+        z = T()
+        if lib(bool, z) is not False:
+            raise Violation("bool-inconsistent", f"{n} fields: bool(T()) is not False")
+        setattr(z, names[j], 1)
+        if lib(bool, z) is not True:
+            raise Violation("bool-inconsistent", f"{n} fields: only field #{j} is non-zero but bool() is {lib(bool, z)!r}")
+        d0 = T(*vals).dumps()
+        y = T(*vals)
+        setattr(y, names[j], vals[j] ^ 1)
+        d1 = y.dumps()
+        changed = [i for i in range(len(d0)) if d0[i] != d1[i]]
+        off = sum(1 if i % 3 else 2 for i in range(j))
+        if changed != [off]:
+            raise Violation("assignment-not-local", f"{n} fields: assigning field #{j} changed bytes {changed}, expected [{off}]")
+    ctx.count(f"wide:{n}")
+    ctx.mark_nontrivial([n, case["cfg"]["compiled"]])
+    ctx.sample({"fields": n, "compiled": case["cfg"]["compiled"]}, "wide")
 
 
 def _siblings(defs):
@@ -126,7 +174,24 @@ def _field_truthy(v):
     return bool(v)
 
 
+def _twin(sem, t, v):
+    """A value equal (==) to v at every field but not identical: 0.0 <-> -0.0 in one float field, or None."""
+    t = sem.res(t)
+    if t["k"] != "st":
+        return None
+    for i, f in enumerate(t["fields"]):
+        ft = sem.res(f["t"])
+        key = fkey(f, i)
+        if not f.get("bits") and ft["k"] == "s" and refsem.SCALARS[ft["n"]][0] == "float" and v[key] == 0.0:
+            out = dict(v)
+            out[key] = -v[key] if str(v[key]) == "0.0" else 0.0
+            return out
+    return None
+
+
 def run_case(case, ctx):
+    if case.get("wide"):
+        return _run_wide(case, ctx)
     m = import_repo()
     ref = common.reference(case)
     if ref["status"] != "ok":
@@ -175,6 +240,30 @@ def run_case(case, ctx):
             raise Violation("equal-instances-hash-differently", f"a == b but hash {ha} != {hb}: {desc()}")
         else:
             ctx.count("hash:equal")
+        # equal by VALUE, not by encoding: 0.0 and -0.0 are equal fields
+        tw = _twin(sem, common.ROOT, want)
+        if tw is not None:
+            bt = build(T, common.ROOT, tw)
+            if lib(lambda: a == bt) is not True or lib(lambda: bt == a) is not True:
+                raise Violation("equal-instances-unequal", f"instances whose fields are all equal (one float field holds 0.0 in one and -0.0 in the other): == gives {lib(lambda: a == bt)!r}: {desc()}")
+            hbt = lib(hash, bt)
+            if not isinstance(ha, Err) and not isinstance(hbt, Err) and ha != hbt:
+                raise Violation("equal-instances-hash-differently", f"a == b (0.0 vs -0.0 in one field) but hash {ha} != {hbt}: {desc()}")
+            ctx.count("pair:equal-but-not-identical(0.0/-0.0)")
+        # an instance parsed from the encoding equals the constructed one, in both directions, with the same hash and truth
+        e_ = bytes(sem.encode(common.ROOT, want))
+        pobj = lib(T, e_ + b"\x00")
+        if isinstance(pobj, Err):
+            raise Violation("construction-raised", f"parsing the reference encoding {e_.hex()} raised {pobj}: {desc()}", pobj.where)
+        if libside.cplain(pobj) == refsem.canon(want):
+            if lib(lambda: pobj == a) is not True or lib(lambda: a == pobj) is not True:
+                raise Violation("equal-instances-unequal", f"a parsed and a constructed instance holding the same values: parsed == built {lib(lambda: pobj == a)!r}, built == parsed {lib(lambda: a == pobj)!r}: {desc()}")
+            hp = lib(hash, pobj)
+            if not isinstance(ha, Err) and (isinstance(hp, Err) or hp != ha):
+                raise Violation("equal-instances-hash-differently", f"parsed == built but hash {hp!r} != {ha!r}: {desc()}")
+            if lib(bool, pobj) is not lib(bool, a):
+                raise Violation("bool-inconsistent", f"bool(parsed) is {lib(bool, pobj)!r}, bool(built) is {lib(bool, a)!r}: {desc()}")
+            ctx.count("pair:parsed-vs-built")
     # differ in exactly one field
     if nfields:
         idx = {"first": 0, "middle": nfields // 2, "last": nfields - 1}[case["which"]]
@@ -237,6 +326,11 @@ def run_case(case, ctx):
         setattr(o2, lf[i]._name, vals[i])
     for k_, v_ in kw.items():
         setattr(o2, k_, v_)
+    if not nan and (lib(lambda: o1 == o2) is not True or lib(lambda: T() == T()) is not True):
+        raise Violation("constructor-differs-from-setattr", f"T(*{npos} positional, **{sorted(kw)}) == default+setattr gives {lib(lambda: o1 == o2)!r}; T() == T() gives {lib(lambda: T() == T())!r}: {desc()}")
+    h1, h2 = lib(hash, o1), lib(hash, o2)
+    if not nan and not isinstance(h1, Err) and not isinstance(h2, Err) and h1 != h2:
+        raise Violation("equal-instances-hash-differently", f"T(*{npos} positional, **{sorted(kw)}) and default+setattr are equal but hash {h1} != {h2}: {desc()}")
     if libside.cplain(o1) != libside.cplain(o2) or lib(o1.dumps) != lib(o2.dumps):
         raise Violation("constructor-differs-from-setattr", f"T(*{npos} positional, **{sorted(kw)}) = {libside.cplain(o1)!r}, default+setattr = {libside.cplain(o2)!r}: {desc()}")
     # unspecified members are this instance's own: changing them in place on one instance built this way does not
@@ -255,7 +349,13 @@ def run_case(case, ctx):
     for i, f in enumerate(root["fields"]):
         if i >= npos and lf[i]._name not in kw and p1[fkey(f, i)] != dflt[fkey(f, i)]:
             raise Violation("unspecified-field-not-zero", f"field {fkey(f, i)!r} was not specified but holds {p1[fkey(f, i)]!r}, zero value {dflt[fkey(f, i)]!r}: {desc()}")
-    # ---- locality of assignment
+    # ---- locality of assignment (on the built instance, or on one parsed from its encoding: drawn by the case)
+    if case.get("assign", 0) % 2 == 1 and not nan:
+        pa = lib(T, bytes(sem.encode(common.ROOT, want)))
+        if not isinstance(pa, Err) and libside.cplain(pa) == refsem.canon(want):
+            hp_ = lib(hash, pa)  # hashed before the assignment, like `a`
+            a = pa
+            ctx.count("assign:on-parsed-instance")
     d0 = lib(a.dumps)
     e0 = bytes(sem.encode(common.ROOT, want))
     if isinstance(d0, Err) or d0 != e0:
@@ -264,9 +364,14 @@ def run_case(case, ctx):
     for i, f in enumerate(root["fields"]):
         ft = sem.res(f["t"])
         if f.get("name") is None:
-            for j, g in enumerate(ft["fields"]):
-                if g.get("name"):
-                    targets.append(((g["name"],), (fkey(f, i), fkey(g, j)), g))
+            def folded(st_t, mprefix):
+                for j, g in enumerate(st_t["fields"]):
+                    if g.get("name"):
+                        targets.append(((g["name"],), mprefix + (fkey(g, j),), g))
+                    elif sem.res(g["t"])["k"] == "st":
+                        folded(sem.res(g["t"]), mprefix + (fkey(g, j),))  # an anonymous member inside an anonymous member
+
+            folded(ft, (fkey(f, i),))
         else:
             targets.append(((lf[i]._name,), (fkey(f, i),), f))
             if ft["k"] == "st" and ft["kind"] == "struct":
@@ -322,7 +427,7 @@ def run_case(case, ctx):
                     ctx.count("hash:equal-after-assignment")
                 elif not (isinstance(ha2, Err) and ha2.type == "TypeError"):
                     raise Violation("hash-raised", f"hash raised {ha2!r}/{hb2!r}: {desc()}")
-            kind = "bit-field" if fld.get("bits") else "anonymous-forwarded" if len(mpath) == 2 and len(attrs) == 1 else "nested" if len(attrs) == 2 else "top"
+            kind = "bit-field" if fld.get("bits") else "anonymous-forwarded-two-levels" if len(mpath) >= 3 and len(attrs) == 1 else "anonymous-forwarded" if len(mpath) == 2 and len(attrs) == 1 else "nested" if len(attrs) == 2 else "top"
             ctx.count("assign:" + kind)
     ctx.count(f"fields:{nfields}")
     feats = common.model_features(sem, common.ROOT)
@@ -338,5 +443,6 @@ def stages(tier):
     q = tier == "quick"
     return [
         HypStage("values", value_case, examples=500 if q else 5000, shards=8 if q else 16),
+        EnumStage("wide", wide_cases, shards=4, scope="field counts 13, 30..33, 64, 129, 255..257, 300 x {compiled, interpreted}: equality, hash, per-index inequality / truth / assignment locality"),
         EnumStage("counts", count_cases, shards=2, scope="field counts 0..12 x 3 name orders, with same-count siblings alive"),
     ]
